@@ -509,6 +509,77 @@ def gen_vor(rng, ngrids, nloc, nray):
     return ops
 
 
+def clustered_generators(rng, a, s, kind, nclump, nback):
+    """well separated random generators: dense clump(s) in 1-5 % of the box volume + sparse
+    background (as in SPH snapshots), or points close to the walls; no lattices, no duplicates"""
+    pts, seen = [], set()
+
+    def add(p):
+        p = [min(max(p[i], a[i] + 1e-4 * s[i]), a[i] + s[i] * (1.0 - 1e-4)) for i in range(3)]
+        key = tuple(int((p[i] - a[i]) / s[i] * 2e5) for i in range(3))     # >= 5e-6 box sides apart
+        if key not in seen:
+            seen.add(key)
+            pts.append(p)
+
+    nclumps = 2 if kind == "two-clumps" else 1
+    for _ in range(nclumps):
+        f = rng.uniform(0.01, 0.05) ** (1.0 / 3.0)
+        c = [a[i] + s[i] * rng.uniform(0.5 * f + 0.02, 1.0 - 0.5 * f - 0.02) for i in range(3)]
+        for _ in range(nclump // nclumps):
+            add([c[i] + s[i] * f * (rng.random() - 0.5) for i in range(3)])
+    for _ in range(nback):
+        if kind == "walls" and rng.random() < 0.5:
+            p = [a[i] + s[i] * rng.random() for i in range(3)]
+            ax = rng.randrange(3)
+            off = 10 ** rng.uniform(-3, -2)
+            p[ax] = a[ax] + s[ax] * (off if rng.random() < 0.5 else 1.0 - off)
+            add(p)
+        else:
+            add([a[i] + s[i] * rng.random() for i in range(3)])
+    rng.shuffle(pts)
+    return pts
+
+
+def gen_vor_big(rng, thorough):
+    """large / clustered generator sets for the oracle-only Voronoi stream: geometric clauses on
+    each construction (`vor geom`) and agreement of the Old and New construction (`vor both`)"""
+    ops = []
+
+    def box():
+        kind, a, s = rand_box(rng)
+        while kind in ("huge", "tiny"):
+            kind, a, s = rand_box(rng)
+        return a, s
+
+    def both(pts, a, s):
+        ops.append("vor both %s | %s" % (" ".join(fb(v) for v in a + s), " ".join(fb(v) for g in pts for v in g)))
+
+    def geom(typ, lloyd, pts, a, s):
+        ops.append("vor geom %s %d %s | %s" % (typ, lloyd, " ".join(fb(v) for v in a + s), " ".join(fb(v) for g in pts for v in g)))
+
+    # quick: ~400-generator clustered sets through both constructions (clump, two clumps, clump +
+    # points close to the walls), and one smaller set per construction with a Lloyd iteration
+    for kind in ("clump", "two-clumps", "walls", "clump"):
+        a, s = box()
+        both(clustered_generators(rng, a, s, kind, rng.randint(250, 320), rng.randint(60, 100)), a, s)
+    for typ in ("Old", "New"):
+        a, s = box()
+        geom(typ, 1, clustered_generators(rng, a, s, rng.choice(["clump", "two-clumps", "walls"]), 150, 60), a, s)
+    if thorough:
+        for k in range(10):
+            a, s = box()
+            kind = ["clump", "two-clumps", "walls", "uniform"][k % 4]
+            if kind == "uniform":
+                pts = clustered_generators(rng, a, s, "clump", 0, rng.randint(300, 1500))
+            else:
+                pts = clustered_generators(rng, a, s, kind, rng.randint(100, 300) * (2 if kind == "two-clumps" else 1), rng.randint(50, 100) + (rng.randint(200, 1000) if k >= 6 else 0))
+            if k % 3 == 2:
+                geom(["Old", "New"][k % 2], rng.choice([0, 1]), pts, a, s)
+            else:
+                both(pts, a, s)
+    return ops
+
+
 # ---- AMRDensityGrid: the model holds the same tree (explicit refinement keys)
 
 AMRD_NB = [(1, 1, 1), (3, 1, 1), (1, 3, 2), (3, 3, 3), (2, 3, 1), (5, 2, 1), (1, 1, 3)]
@@ -661,7 +732,7 @@ def cmp_num(a, b, op):
     return True
 
 
-GROUP = {"amrdensitygrid": lambda op: op.startswith("amrd new"), "buckets": lambda op: op.startswith("pl new"), "octree": lambda op: op.startswith("oct new"), "voronoi": lambda op: op.startswith("vor new"), "amr": lambda op: op.startswith("amr new"), "cartesian": lambda op: op.startswith("cart medium")}
+GROUP = {"amrdensitygrid": lambda op: op.startswith("amrd new"), "buckets": lambda op: op.startswith("pl new"), "octree": lambda op: op.startswith("oct new"), "voronoi": lambda op: op.startswith("vor new") or op.startswith("vor geom") or op.startswith("vor both"), "amr": lambda op: op.startswith("amr new"), "cartesian": lambda op: op.startswith("cart medium")}
 
 
 def harness_kw():
@@ -748,7 +819,7 @@ def run(ctx):
         ("amr", gen_amr(rng, ctx.budget(40, 600), ctx.budget(25, 60), ctx.budget(6, 12))),
         ("buckets", gen_pl(rng, ctx.budget(60, 1500), ctx.budget(25, 60))),
         ("octree", gen_oct(rng, ctx.budget(40, 800), ctx.budget(20, 40))),
-        ("voronoi", gen_vor(rng, ctx.budget(6, 60), ctx.budget(10, 30), ctx.budget(25, 60))),
+        ("voronoi", gen_vor(rng, ctx.budget(6, 60), ctx.budget(10, 30), ctx.budget(25, 60)) + gen_vor_big(rng, ctx.thorough)),
         ("amrdensitygrid", gen_amrd(rng, ctx.budget(25, 400), ctx.budget(12, 30), ctx.budget(30, 80))),
         ("cartesian", gen_cart_exact(rng, ctx.budget(40, 400)) + gen_cart(rng, ctx.budget(40, 800), ctx.budget(25, 60), ctx.budget(40, 120), ctx.thorough)),
     ]
